@@ -378,6 +378,16 @@ PROPERTIES['C01'] = {
     dict(name='ismanifold_gate', harness='c01_gate.cpp', entry='h_ismanifold_gate', defs={'VF_T': 4, 'VF_V': 4}, redirect={'_ZN8manifold8Manifold4Impl9MakeEmptyENS0_5ErrorE': 'vf_stub_MakeEmpty'}, backends=['minisat', 'kissat'], timeout=900, unwind={'default': 13}, recursion={'default': 2},
          claim='Impl::IsManifold() (the gate of the import constructor and of the library\'s own topology assertions) returns true exactly for the halfedge arrays in which every live halfedge belongs to a live triangle and is paired with the opposite directed edge which points back, start != end; whole-triangle tombstones allowed',
          bounds='4 triangles (12 halfedges), 4 vertices, every start in [-1,4) and pair in [-1,12)', targets=['properties.cpp Impl::IsManifold, CheckHalfedges', 'parallel.h all_of (Seq)', 'shared.h Halfedges']),
+    dict(name='create_halfedges_t4', harness='c01_create.cpp', entry='h_create_halfedges', defs={'VF_T': 4, 'VF_V': 4}, models=['rbtree.h', 'stdlib.h'],
+         unwind={'auto': True, 'start': 4, 'max': 16, 'rounds': 30}, recursion={'default': 2}, backends=['minisat', 'kissat'], timeout=2400, mem_gb=24, object_bits=12, tiers=['experimental'],
+         cdefs=['VF_ALLOC_CLASSES=VF_C(12) VF_C(16) VF_C(24) VF_C(48) VF_C(96) VF_C(144) VF_C(192)'],
+         claim='Impl::CreateHalfedges on ANY triangle list the import ladder lets through (indices in range, 3 distinct vertices per triangle, manifold or not): memory safe; every triangle survives verbatim or is tombstoned as a whole, and only together with an opposed duplicate; pair indices stay in [-1, n); a closed oriented manifold without opposed duplicates is paired so that IsManifold() accepts it and invariant I holds',
+         bounds='4 triangles over 4 vertices, all index combinations; sequential branch, small-vertex-count (sorting) path', targets=['impl.cpp Impl::CreateHalfedges, PrepHalfedges', 'parallel.h stable_sort/sequence/for_each_n (Seq)', 'properties.cpp IsManifold']),
+    dict(name='create_halfedges_t2', harness='c01_create.cpp', entry='h_create_halfedges', defs={'VF_T': 2, 'VF_V': 3}, models=['rbtree.h', 'stdlib.h'],
+         unwind={'default': 8}, recursion={'default': 2}, backends=['minisat', 'kissat'], timeout=1800, mem_gb=24, object_bits=12, tiers=['experimental'], cbmc=['--slice-formula'],
+         cdefs=['VF_ALLOC_CLASSES=VF_C(6) VF_C(8) VF_C(12) VF_C(16) VF_C(24) VF_C(48) VF_C(72) VF_C(96)'],
+         claim='Impl::CreateHalfedges on any 2 triangles over 3 vertices: memory safe; every triangle survives verbatim or is tombstoned as a whole and only together with its opposed duplicate; pair indices in [-1, n)',
+         bounds='2 triangles over 3 vertices, all index combinations; sequential branch, sorting path', targets=['impl.cpp Impl::CreateHalfedges, PrepHalfedges', 'parallel.h stable_sort/sequence/for_each_n (Seq)']),
     dict(name='collapse_tri', harness='c01_edgeops.cpp', entry='h_collapse_tri', defs={'VF_T': 4, 'VF_V': 4}, backends=['minisat'], timeout=900, unwind={'default': 13}, tiers=['experimental'],
          claim='Impl::CollapseTri on a triangle whose edge 0 has been collapsed (start==end, unpaired) re-pairs its two neighbours and restores the invariant', bounds='4 triangles, 4 vertices', targets=['edge_op.cpp Impl::CollapseTri, PairUp']),
     dict(name='gather_faces', harness='c01_sort.cpp', entry='h_gather_faces', defs={'VF_T': 4, 'VF_V': 4}, backends=['minisat'], timeout=900, unwind={'default': 13}, recursion={'default': 2},
